@@ -136,6 +136,13 @@ def r_vtform(ctx):
             sl[x] = (x[2][1], x[2][2], x[2][3])
     nxt = [k for k, v in sl.items() if v == (('c', 1), NONE, NONE)]
     cur = [k for k, v in sl.items() if v == (NONE, ('c', -1), NONE)]
+    rolled = [x for x in walk_term(pred) if is_call(x, 'numpy.roll') and x[2] and values_term(x[2][0])]
+    if not sl and rolled:
+        run.refute('R-VTFORM', f, 'pair=(i+1,i)', nd.lineno,
+                   'the ascent predicate compares the value array with %s: numpy.roll is circular, so the LAST position is compared '
+                   'with the FIRST nucleotide and is added to the position sum whenever the strand starts higher than it ends'
+                   % show(rolled[0])[:40], inputs='strands whose first nucleotide is larger than the last one')
+        return
     if not sl:
         run.undecided('R-VTFORM', f, 'pair=(i+1,i)', nd.lineno, 'the ascent predicate %s does not compare slices of the value array'
                       % show(pred)[:80])
